@@ -6,6 +6,7 @@ of known finding F26."""
 from __future__ import annotations
 
 import copy
+import math
 
 from harness import project_docs as PD
 
@@ -86,6 +87,15 @@ def value_mutations(v):
     for r in _retype(v):
         out.append(("retype_value", r))
     t = v["t"]
+    if t == "float":
+        # a NEARBY number (same magnitude): a change that only shows in the low digits / the exponent
+        x = float(v["v"])
+        near = x * 3 if x != 0.0 else 1e-09
+        if repr(near) != repr(x):
+            out.append(("replace_float_nearby", PD.vfloat(repr(near))))
+        nxt = math.nextafter(x, math.inf)
+        if repr(nxt) != repr(x):
+            out.append(("replace_float_next_double", PD.vfloat(repr(nxt))))
     if t == "list":
         xs = v["v"]
         out.append(("list_insert_item", PD.vlist(xs + [PD.vstr("added")])))
